@@ -572,6 +572,39 @@ Proof.
 Qed.
 End Length.
 
+(* ---------------------------------------------------------------- the built-in formats *)
+Lemma ws_format_to_string : ws_format fmt_to_string.
+Proof.
+  constructor; cbn; try reflexivity.
+  - exists [], [32]. repeat split.
+  - exists [], [32]. repeat split.
+  - exists [32]. repeat split.
+  - exists [32]. repeat split.
+Qed.
+
+Lemma ws_format_manifest : ws_format fmt_manifest.
+Proof.
+  constructor; cbn; try reflexivity.
+  - exists [], [32]. repeat split.
+  - exists [], []. repeat split.
+  - exists [32]. repeat split.
+  - exists [32]. repeat split.
+Qed.
+
+Lemma ws_format_std_ex : forall i n k, all_ws i -> all_ws n -> sep_shape 58 k -> ws_format (fmt_std_ex i n k).
+Proof.
+  intros i n k Hi Hn Hk. constructor; cbn; try assumption; try exact I.
+  exists [], []. repeat split.
+Qed.
+
+Lemma builtin_formats_ws :
+  ws_format fmt_to_string /\ ws_format fmt_manifest /\ ws_format fmt_std_json /\ ws_format fmt_minified.
+Proof.
+  split; [exact ws_format_to_string|split; [exact ws_format_manifest|split]].
+  - apply ws_format_std_ex; try reflexivity. exists [], [32]. repeat split.
+  - apply ws_format_std_ex; try reflexivity. exists [], []. repeat split.
+Qed.
+
 (* ---------------------------------------------------------------- headline *)
 Section Headline.
 Variable okn : f64 -> Prop.
@@ -616,6 +649,45 @@ Corollary cli_default_roundtrip : forall v, ws_format fmt_manifest -> fin v ->
 Proof.
   intros v WF Hf. unfold decode, cli_default, manifest_json.
   rewrite (manifest_parse_prefix fmt_manifest v 0 [10] WF Hf); reflexivity.
+Qed.
+(* -m: every file holds the document of its field; -y: every stream item is a document *)
+Lemma fin_arr_forall : forall items, fin (JArr items) -> Forall fin items.
+Proof.
+  induction items as [|v l IH]; intros H; [constructor|].
+  unfold fin in H. cbn [nums_of flat_map] in H. apply Forall_app in H as [H1 H2].
+  constructor; [exact H1|apply IH; exact H2].
+Qed.
+
+Lemma fin_obj_forall : forall ms, fin (JObj ms) -> Forall (fun kv => fin (snd kv)) ms.
+Proof.
+  induction ms as [|kv l IH]; intros H; [constructor|].
+  unfold fin in H. cbn [nums_of flat_map] in H. apply Forall_app in H as [H1 H2].
+  constructor; [exact H1|apply IH; exact H2].
+Qed.
+
+Theorem cli_multi_roundtrip : forall ms, fin (JObj ms) ->
+  exists files, cli_multi show (JObj ms) = Some files
+  /\ Forall2 (fun kv f => fst f = fst kv /\ decode read (snd f) = Ok (snd kv)) ms files.
+Proof.
+  intros ms Hf. eexists. split; [reflexivity|].
+  pose proof (fin_obj_forall ms Hf) as HF. clear Hf.
+  induction HF as [|kv l Hkv Hl IH]; cbn [map]; constructor; [|exact IH].
+  split; [reflexivity|]. cbn [snd]. apply cli_default_roundtrip; [exact ws_format_manifest|exact Hkv].
+Qed.
+
+Theorem cli_yaml_stream_roundtrip : forall items, fin (JArr items) -> items <> [] ->
+  exists docs, cli_yaml_stream show (JArr items)
+               = Some (flat_map (fun doc => [45; 45; 45; 10] ++ doc) docs ++ [46; 46; 46; 10])
+  /\ Forall2 (fun it doc => decode read doc = Ok it) items docs.
+Proof.
+  intros items Hf Hne. exists (map (cli_default show) items). split.
+  - destruct items as [|v l]; [contradiction Hne; reflexivity|].
+    cbn [cli_yaml_stream]. do 2 f_equal.
+    generalize (v :: l). intros l0. induction l0 as [|x r IH]; [reflexivity|].
+    cbn [flat_map map]. rewrite IH. unfold cli_default. rewrite <- !app_assoc. reflexivity.
+  - pose proof (fin_arr_forall items Hf) as HF. clear Hf Hne.
+    induction HF as [|x r Hx Hr IH]; cbn [map]; constructor; [|exact IH].
+    apply cli_default_roundtrip; [exact ws_format_manifest|exact Hx].
 Qed.
 End Headline.
 
@@ -809,35 +881,3 @@ Proof.
 Qed.
 End Erasure.
 
-(* ---------------------------------------------------------------- the built-in formats *)
-Lemma ws_format_to_string : ws_format fmt_to_string.
-Proof.
-  constructor; cbn; try reflexivity.
-  - exists [], [32]. repeat split.
-  - exists [], [32]. repeat split.
-  - exists [32]. repeat split.
-  - exists [32]. repeat split.
-Qed.
-
-Lemma ws_format_manifest : ws_format fmt_manifest.
-Proof.
-  constructor; cbn; try reflexivity.
-  - exists [], [32]. repeat split.
-  - exists [], []. repeat split.
-  - exists [32]. repeat split.
-  - exists [32]. repeat split.
-Qed.
-
-Lemma ws_format_std_ex : forall i n k, all_ws i -> all_ws n -> sep_shape 58 k -> ws_format (fmt_std_ex i n k).
-Proof.
-  intros i n k Hi Hn Hk. constructor; cbn; try assumption; try exact I.
-  exists [], []. repeat split.
-Qed.
-
-Lemma builtin_formats_ws :
-  ws_format fmt_to_string /\ ws_format fmt_manifest /\ ws_format fmt_std_json /\ ws_format fmt_minified.
-Proof.
-  split; [exact ws_format_to_string|split; [exact ws_format_manifest|split]].
-  - apply ws_format_std_ex; try reflexivity. exists [], [32]. repeat split.
-  - apply ws_format_std_ex; try reflexivity. exists [], []. repeat split.
-Qed.
